@@ -52,3 +52,12 @@ PROPS['C20']['explanation'] += (' "With or without a point in time" for metadata
                                 '[metadata-filter-as-of] independent of the model. A defect found by this tie (volumes + PIT/OOT + metadata filter with ACCOUNT_METADATA_HISTORY DISABLED saw no '
                                 'metadata) was repaired in /repo by f445e43 (KF-C20-volumes-metadata-filter-history-off, fixed).')
 PROPS['C20']['level_text'] += (' Metadata filters at a point in time (volumes, aggregated balances, accounts) select on the metadata as of t: theorems over all histories + tie on the real stack.')
+
+# TIE-H for the read-side probes (harness/go/vh/readshttp.go): the probes as v2 GET requests
+READS_HTTP_NOTE = (' TIE-H reads: the same probes are also issued as v2 GET requests against the real router (pit / oot, endTime / startTime on /volumes, insertionDate, use_insertion_date / '
+                   'useInsertionDate, groupBy, expand, sort, query=<filter JSON>), decoded page by page from the JSON answers and compared with the read-side model; a monitor without model '
+                   'requires each HTTP answer to equal the controller-level answer, and balance = input - output on every volumes row.')
+for _pid in ['C05', 'C17', 'C20']:
+    PROPS[_pid]['ties'].append(dict(name='TIE-H reads http', vh='reads', model='reads', n=dict(quick=60, thorough=1500), args=dict(all=['-via', 'http', '-monitors', _pid]),
+                                    kinds=[_pid], case_head='reads', replayable=False))
+    PROPS[_pid]['explanation'] += READS_HTTP_NOTE
